@@ -1017,5 +1017,388 @@ theorem treeOK_of_wf (t : RawTree) (h : TreeWF t) : TreeOK t := by
       have := readKeys_level t h.hierNodup a n1 b n2 hyx
       omega
 
+/-! ### the cache: name → index on both sides, co-sorted by reference index -/
+
+theorem nameToIdx_some (names : List Gene) (g : Gene) (i : Nat) (h : nameToIdx names g = some i) :
+    names[i]? = some g := by
+  induction names generalizing i with
+  | nil => simp [nameToIdx] at h
+  | cons x xs ih =>
+    simp only [nameToIdx] at h
+    cases hx : nameToIdx xs g with
+    | some j =>
+      simp only [hx, Option.some.injEq] at h
+      subst h
+      simpa using ih j hx
+    | none =>
+      simp only [hx] at h
+      split at h
+      · rename_i he
+        cases h
+        simp only [beq_iff_eq] at he
+        simp [he]
+      · cases h
+
+theorem nameToIdx_of_mem (names : List Gene) (g : Gene) (h : g ∈ names) :
+    ∃ i, nameToIdx names g = some i := by
+  induction names with
+  | nil => cases h
+  | cons x xs ih =>
+    simp only [nameToIdx]
+    cases hx : nameToIdx xs g with
+    | some j => exact ⟨j + 1, rfl⟩
+    | none =>
+      rcases List.mem_cons.1 h with rfl | h
+      · exact ⟨0, by simp⟩
+      · obtain ⟨i, hi⟩ := ih h
+        rw [hx] at hi; cases hi
+
+theorem nameToIdx_mem (names : List Gene) (g : Gene) (i : Nat) (h : nameToIdx names g = some i) :
+    g ∈ names := List.mem_of_getElem? (nameToIdx_some names g i h)
+
+theorem pairOf_ok (R Q : List Gene) (g : Gene) (p : Nat × Nat) (h : pairOf R Q g = .ok p) :
+    R[p.1]? = some g ∧ Q[p.2]? = some g := by
+  unfold pairOf at h
+  cases hr : nameToIdx R g with
+  | none => simp [hr] at h
+  | some r =>
+    cases hq : nameToIdx Q g with
+    | none => simp [hr, hq] at h
+    | some q =>
+      simp only [hr, hq, Except.ok.injEq] at h
+      subst h
+      exact ⟨nameToIdx_some R g r hr, nameToIdx_some Q g q hq⟩
+
+theorem pairOf_of_mem (R Q : List Gene) (g : Gene) (hr : g ∈ R) (hq : g ∈ Q) :
+    ∃ p, pairOf R Q g = .ok p := by
+  obtain ⟨r, hr⟩ := nameToIdx_of_mem R g hr
+  obtain ⟨q, hq⟩ := nameToIdx_of_mem Q g hq
+  exact ⟨(r, q), by simp [pairOf, hr, hq]⟩
+
+/-- rows and genes correspond position by position -/
+def RowsFor (R Q : List Gene) : List (Nat × Nat) → List Gene → Prop
+  | [], [] => True
+  | p :: ps, g :: gs => (R[p.1]? = some g ∧ Q[p.2]? = some g) ∧ RowsFor R Q ps gs
+  | _, _ => False
+
+theorem pairsOf_ok (R Q : List Gene) (genes : List Gene) (ps : List (Nat × Nat))
+    (h : pairsOf R Q genes = .ok ps) : RowsFor R Q ps genes := by
+  induction genes generalizing ps with
+  | nil => simp only [pairsOf, Except.ok.injEq] at h; subst h; trivial
+  | cons g gs ih =>
+    simp only [pairsOf] at h
+    cases hp : pairOf R Q g with
+    | error e => simp [hp] at h
+    | ok p =>
+      cases hps : pairsOf R Q gs with
+      | error e => simp [hp, hps] at h
+      | ok ps' =>
+        simp only [hp, hps, Except.ok.injEq] at h
+        subst h
+        exact ⟨pairOf_ok R Q g p hp, ih ps' hps⟩
+
+theorem pairsOf_of_mem (R Q : List Gene) (genes : List Gene) (hr : ∀ g ∈ genes, g ∈ R)
+    (hq : ∀ g ∈ genes, g ∈ Q) : ∃ ps, pairsOf R Q genes = .ok ps := by
+  induction genes with
+  | nil => exact ⟨[], rfl⟩
+  | cons g gs ih =>
+    obtain ⟨p, hp⟩ := pairOf_of_mem R Q g (hr g (by simp)) (hq g (by simp))
+    obtain ⟨ps, hps⟩ := ih (fun x hx => hr x (by simp [hx])) (fun x hx => hq x (by simp [hx]))
+    exact ⟨p :: ps, by simp [pairsOf, hp, hps]⟩
+
+theorem pairsOf_error (R Q : List Gene) (genes : List Gene) (e : MErr)
+    (h : pairsOf R Q genes = .error e) : e = .keyError ∧ ∃ g ∈ genes, g ∉ R ∨ g ∉ Q := by
+  induction genes with
+  | nil => simp [pairsOf] at h
+  | cons g gs ih =>
+    simp only [pairsOf] at h
+    cases hp : pairOf R Q g with
+    | error e' =>
+      simp only [hp, Except.error.injEq] at h
+      subst h
+      refine ⟨?_, g, by simp, ?_⟩
+      · unfold pairOf at hp
+        split at hp <;> simp_all
+      · by_cases hr : g ∈ R
+        · by_cases hq : g ∈ Q
+          · obtain ⟨p, hp'⟩ := pairOf_of_mem R Q g hr hq
+            rw [hp'] at hp; cases hp
+          · exact Or.inr hq
+        · exact Or.inl hr
+    | ok p =>
+      cases hps : pairsOf R Q gs with
+      | error e' =>
+        simp only [hp, hps, Except.error.injEq] at h
+        subst h
+        obtain ⟨h1, g', hg', h2⟩ := ih hps
+        exact ⟨h1, g', by simp [hg'], h2⟩
+      | ok ps' => simp [hp, hps] at h
+
+theorem rowsFor_namesAt (R Q : List Gene) (ps : List (Nat × Nat)) (gs : List Gene)
+    (h : RowsFor R Q ps gs) :
+    namesAt R (ps.map (·.1)) = .ok gs ∧ namesAt Q (ps.map (·.2)) = .ok gs := by
+  induction ps generalizing gs with
+  | nil => cases gs <;> simp_all [RowsFor, namesAt]
+  | cons p ps ih =>
+    cases gs with
+    | nil => simp [RowsFor] at h
+    | cons g gs =>
+      obtain ⟨⟨h1, h2⟩, h3⟩ := h
+      obtain ⟨i1, i2⟩ := ih gs h3
+      simp [namesAt, h1, h2, i1, i2]
+
+theorem rowsFor_perm (R Q : List Gene) {ps ps' : List (Nat × Nat)} (hp : ps.Perm ps') :
+    ∀ gs, RowsFor R Q ps gs → ∃ gs', gs'.Perm gs ∧ RowsFor R Q ps' gs' := by
+  induction hp with
+  | nil => intro gs h; exact ⟨gs, List.Perm.refl _, h⟩
+  | cons p _ ih =>
+    intro gs h
+    cases gs with
+    | nil => simp [RowsFor] at h
+    | cons g gs =>
+      obtain ⟨gs', h1, h2⟩ := ih gs h.2
+      exact ⟨g :: gs', List.Perm.cons g h1, h.1, h2⟩
+  | swap p q ps =>
+    intro gs h
+    match gs, h with
+    | g1 :: g2 :: gs, ⟨h1, h2, h3⟩ =>
+      exact ⟨g2 :: g1 :: gs, List.Perm.swap g1 g2 gs, h2, h1, h3⟩
+  | trans _ _ ih1 ih2 =>
+    intro gs h
+    obtain ⟨gs1, p1, r1⟩ := ih1 gs h
+    obtain ⟨gs2, p2, r2⟩ := ih2 gs1 r1
+    exact ⟨gs2, p2.trans p1, r2⟩
+
+theorem insertPair_perm (p : Nat × Nat) (l : List (Nat × Nat)) : (insertPair p l).Perm (p :: l) := by
+  induction l with
+  | nil => simp [insertPair]
+  | cons y ys ih =>
+    simp only [insertPair]
+    split
+    · exact List.Perm.refl _
+    · exact (List.Perm.cons y ih).trans (List.Perm.swap p y ys)
+
+theorem sortPairs_perm (l : List (Nat × Nat)) : (sortPairs l).Perm l := by
+  induction l with
+  | nil => simp [sortPairs]
+  | cons x xs ih => exact (insertPair_perm x _).trans (List.Perm.cons x ih)
+
+theorem insertPair_sorted (p : Nat × Nat) (l : List (Nat × Nat)) (h : l.Pairwise (fun a b => a.1 ≤ b.1)) :
+    (insertPair p l).Pairwise (fun a b => a.1 ≤ b.1) := by
+  induction l with
+  | nil => simp [insertPair]
+  | cons y ys ih =>
+    simp only [insertPair]
+    have h' := List.pairwise_cons.1 h
+    split
+    · rename_i hxy
+      refine List.Pairwise.cons ?_ h
+      intro a ha
+      rcases List.mem_cons.1 ha with rfl | ha
+      · exact hxy
+      · exact Nat.le_trans hxy (h'.1 a ha)
+    · rename_i hxy
+      refine List.Pairwise.cons ?_ (ih h'.2)
+      intro a ha
+      rcases List.mem_cons.1 ((insertPair_perm p ys).mem_iff.1 ha) with rfl | ha
+      · omega
+      · exact h'.1 a ha
+
+theorem sortPairs_sorted (l : List (Nat × Nat)) : (sortPairs l).Pairwise (fun a b => a.1 ≤ b.1) := by
+  induction l with
+  | nil => simp [sortPairs]
+  | cons x xs ih => exact insertPair_sorted x _ ih
+
+theorem patchAndCount_isSome (t : RawTree) (Q : List Gene) (m : Nat) (lk lk0 : Lookup) (p : PKey)
+    (own : List Gene) (h0 : get? lk0 p = some own) :
+    (get? (patchAndCount t Q m lk { lookup := lk0 } p own).lookup p).isSome := by
+  unfold patchAndCount
+  split
+  · cases p with
+    | none => simp only; split <;> simp [h0]
+    | some ln =>
+      obtain ⟨l, n⟩ := ln
+      simp only
+      generalize patchOf t Q m lk l n own = P
+      obtain ⟨new, pw⟩ := P
+      simp only
+      cases pw with
+      | nil => simp only [List.isEmpty_nil, if_true]; split <;> simp [h0]
+      | cons a pw' =>
+        simp only [List.isEmpty_cons, Bool.false_eq_true, if_false]
+        split <;> simp [get?_set_self]
+  · simp [h0]
+
+/-- a consulted parent that is not in the error condition has an entry after
+validation (missing non-root parents are added) -/
+theorem stepAt_consulted_isSome (t : RawTree) (Q : List Gene) (m : Nat) (lk : Lookup) (p : PKey)
+    (ch : List Node) (hc : childrenOf t p = .ok ch) (hl : ch.length > 1)
+    (hne : ¬ errAt t lk Q m p) (s0 : VState) (h0 : stepAt t Q m lk p = .ok s0) :
+    (get? s0.lookup p).isSome := by
+  unfold stepAt validateStepWith at h0
+  simp only [hc, hl, decide_true, Bool.not_true, Bool.false_eq_true, if_false] at h0
+  cases hg : get? lk p with
+  | some own =>
+    simp only [hg] at h0
+    split at h0
+    · cases h0; simp [hg]
+    · cases h0; exact patchAndCount_isSome t Q m lk lk p own hg
+  | none =>
+    simp only [hg] at h0
+    split at h0
+    · rename_i hr
+      simp only [beq_iff_eq] at hr
+      subst hr
+      exact absurd (Or.inl ⟨rfl, by simp [hg]⟩) hne
+    · cases h0; exact patchAndCount_isSome t Q m lk _ p [] (get?_set_self _ _ _)
+
+theorem validateLookup_isSome (t : RawTree) (hT : TreeOK t) (Q : List Gene) (m : Nat) (lk lk' : Lookup)
+    (h : validateLookup t Q m lk = .ok lk') (p : PKey) (hp : p ∈ t.allParents) (hc : Consulted t p) :
+    (get? lk' p).isSome := by
+  have hne := (validateLookup_ok_iff t hT Q m lk).1 ⟨lk', h⟩ p hp hc
+  obtain ⟨stF, hF, _, h2, _⟩ := validateLoop_spec t hT Q m lk
+  unfold validateLookup at h
+  rw [hF] at h
+  simp only [finish] at h
+  have hl : lk' = stF.lookup := by
+    split at h
+    · split at h <;> cases h
+    · cases h; rfl
+  subst hl
+  obtain ⟨ch, hcc, hl⟩ := hc
+  obtain ⟨s0, h0, he⟩ := h2 p hp
+  rw [he]
+  exact stepAt_consulted_isSome t Q m lk p ch hcc hl hne s0 h0
+
+/-! ### `create_marker_cache_from_specified_markers` -/
+
+def isConsultedKey (consulted : Option (List PKey)) (k : PKey) : Bool :=
+  match consulted with
+  | none => true
+  | some c => c.contains k
+
+theorem intersectAll_cons (Q : List Gene) (consulted : Option (List PKey)) (k : PKey) (l : List Gene)
+    (rest : Lookup) :
+    intersectAll Q consulted ((k, l) :: rest) =
+      if (isConsultedKey consulted k && (interQ Q l).isEmpty && !l.isEmpty) = true then
+        .error .noQueryOverlap
+      else match intersectAll Q consulted rest with
+        | .error e => .error e
+        | .ok r => .ok ((k, interQ Q l) :: r) := by
+  cases consulted <;> rfl
+
+/-- exact characterisation of the intersection loop -/
+theorem intersectAll_ok_iff (Q : List Gene) (consulted : Option (List PKey)) (lk : Lookup) :
+    (∀ e ∈ lk, ¬ (isConsultedKey consulted e.1 = true ∧ interQ Q e.2 = [] ∧ e.2 ≠ [])) →
+      intersectAll Q consulted lk = .ok (lk.map (fun e => (e.1, interQ Q e.2))) := by
+  induction lk with
+  | nil => intro _; rfl
+  | cons e es ih =>
+    obtain ⟨k, l⟩ := e
+    intro h
+    have h0 := h (k, l) (by simp)
+    have hr := ih (fun e he => h e (by simp [he]))
+    rw [intersectAll_cons, hr]
+    have : ¬ (isConsultedKey consulted k && (interQ Q l).isEmpty && !l.isEmpty) = true := by
+      intro hh
+      simp only [Bool.and_eq_true, List.isEmpty_iff, Bool.not_eq_true', List.isEmpty_eq_false_iff] at hh
+      exact h0 ⟨hh.1.1, hh.1.2, hh.2⟩
+    simp only [this, Bool.false_eq_true, if_false, List.map_cons]
+
+theorem intersectAll_error (Q : List Gene) (consulted : Option (List PKey)) (lk : Lookup) (err : MErr)
+    (h : intersectAll Q consulted lk = .error err) :
+    err = .noQueryOverlap ∧
+      ∃ e ∈ lk, isConsultedKey consulted e.1 = true ∧ interQ Q e.2 = [] ∧ e.2 ≠ [] := by
+  induction lk with
+  | nil => simp [intersectAll] at h
+  | cons e es ih =>
+    obtain ⟨k, l⟩ := e
+    rw [intersectAll_cons] at h
+    by_cases hh : (isConsultedKey consulted k && (interQ Q l).isEmpty && !l.isEmpty) = true
+    · simp only [hh, if_true, Except.error.injEq] at h
+      simp only [Bool.and_eq_true, List.isEmpty_iff, Bool.not_eq_true', List.isEmpty_eq_false_iff] at hh
+      exact ⟨h.symm, (k, l), by simp, hh.1.1, hh.1.2, hh.2⟩
+    · simp only [hh, Bool.false_eq_true, if_false] at h
+      cases hr : intersectAll Q consulted es with
+      | error e' =>
+        simp only [hr, Except.error.injEq] at h
+        subst h
+        obtain ⟨h1, e, he, h2⟩ := ih hr
+        exact ⟨h1, e, by simp [he], h2⟩
+      | ok r => simp [hr] at h
+
+theorem get?_map_inter (Q : List Gene) (lk : Lookup) (k : PKey) :
+    get? (lk.map (fun e => (e.1, interQ Q e.2))) k = (get? lk k).map (interQ Q) := by
+  induction lk with
+  | nil => simp [get?]
+  | cons e es ih =>
+    obtain ⟨k0, l⟩ := e
+    simp only [get?] at ih
+    simp only [get?, List.map_cons, List.lookup_cons]
+    split <;> simp_all
+
+theorem writeGroups_lookup (R Q : List Gene) (final : Lookup) (gs : List (PKey × List (Nat × Nat)))
+    (h : writeGroups R Q final = .ok gs) (k : PKey) :
+    match get? final k, gs.lookup k with
+    | some genes, some rows => writeGroup R Q genes = .ok rows
+    | none, none => True
+    | _, _ => False := by
+  induction final generalizing gs with
+  | nil => simp only [writeGroups, Except.ok.injEq] at h; subst h; simp [get?]
+  | cons e es ih =>
+    obtain ⟨k0, genes⟩ := e
+    simp only [writeGroups] at h
+    cases hg : writeGroup R Q genes with
+    | error e' => simp [hg] at h
+    | ok g =>
+      cases hr : writeGroups R Q es with
+      | error e' => simp [hg, hr] at h
+      | ok r =>
+        simp only [hg, hr, Except.ok.injEq] at h
+        subst h
+        have := ih r hr
+        simp only [get?] at this
+        simp only [get?, List.lookup_cons]
+        by_cases hk : (k == k0) = true
+        · simp [hk, hg]
+        · simp only [hk]
+          exact this
+
+theorem writeGroups_ok (R Q : List Gene) (final : Lookup)
+    (h : ∀ e ∈ final, ∀ g ∈ e.2, g ∈ R ∧ g ∈ Q) : ∃ gs, writeGroups R Q final = .ok gs := by
+  induction final with
+  | nil => exact ⟨[], rfl⟩
+  | cons e es ih =>
+    obtain ⟨k0, genes⟩ := e
+    obtain ⟨ps, hps⟩ := pairsOf_of_mem R Q genes (fun g hg => (h (k0, genes) (by simp) g hg).1)
+      (fun g hg => (h (k0, genes) (by simp) g hg).2)
+    obtain ⟨gs, hgs⟩ := ih (fun e he => h e (by simp [he]))
+    exact ⟨(k0, sortPairs ps) :: gs, by simp [writeGroups, writeGroup, hps, hgs]⟩
+
+theorem missingRef_false_iff (R : List Gene) (lk : Lookup) :
+    missingRef R lk = false ↔ ∀ e ∈ lk, ∀ g ∈ e.2, g ∈ R := by
+  unfold missingRef
+  rw [Bool.eq_false_iff]
+  simp only [ne_eq, List.any_eq_true, Bool.not_eq_true', not_exists, not_and]
+  constructor
+  · intro h e he g hg
+    have := h e he g hg
+    simpa using this
+  · intro h e he g hg
+    simpa using h e he g hg
+
+theorem mem_of_get? (lk : Lookup) (k : PKey) (l : List Gene) (h : get? lk k = some l) : (k, l) ∈ lk := by
+  induction lk with
+  | nil => simp [get?] at h
+  | cons e es ih =>
+    obtain ⟨k0, l0⟩ := e
+    simp only [get?, List.lookup_cons] at h ih
+    by_cases hk : (k == k0) = true
+    · simp only [hk, Option.some.injEq] at h
+      simp only [beq_iff_eq] at hk
+      simp [hk, h]
+    · simp only [hk] at h
+      simp [ih h]
+
 end Markers
 end CTM
